@@ -46,7 +46,12 @@ LEVEL_NOTE = ("brentq is not modelled (C02_zero_or_two and C02_exists_iff_nonemp
               "Fresnel products are direction dependent and not part of the property; in the near-vertical band of the "
               "gradient tracers (finding K3 of C01: inaccurate launch angle) count, exists, length, tof, directions and the "
               "symmetry relations are checked on exactly vertical pairs and on rho < 0.003 |dz|; the band 0.003 |dz| < rho < "
-              "0.02 |dz| + 1 m is not sampled")
+              "0.02 |dz| + 1 m and endpoints down to the lower bound of the ice are sampled with the K9 noise allowance; hypothesis "
+              "audit: rho != 0 of C02_phi_rigid / C02_rigid_covariance is complemented by C02_vertical_placement and the vertical "
+              "class; |arcsin argument| <= 1 / a < pi/2 / total root oracle are where the code raises (K17, both gradient tracers, "
+              "saturated index below about -2870 m in GreenlandIce) - any other exception is a violation; decisions within 1e-6 of "
+              "direct_r_max / indirect_r_max are skipped and counted (skipped_near_threshold); BasicRayTracer finds nothing when "
+              "|z_from - z_to| <= dz (allowed by 'none or two'; observation for C01)")
 ASSUMPTIONS = ["decisions rho < direct_r_max / indirect_r_max within 1e-6 relative of the threshold are not compared "
                "(a 1e-11 m change of rho under a 1e5 m translation may flip them)"]
 FREQS = np.array([1e8, 2e8, 3.5e8, 6e8, 1e9])
@@ -187,13 +192,14 @@ def onbound_case(run, tracer):
         d[r.choice(["A", "B"])][2] = d["range"][0] if k == "lower" else d["range"][1]
         d["flavour"] = "onbound:" + k
         return d
-    # (the lower bound is not sampled: at z < -2880 m the index is saturated, max_angle = pi/2 and brentq rejects the NaN of
-    #  _direct_r(pi/2) - the K17 mechanism, here for both gradient tracers)
-    k = r.choice(["surface", "surface", "level"])
+    # (the lower bound is sampled too: Antarctic / Arasim ice work down to it, GreenlandIce below -2870 m is K17)
+    k = r.choice(["surface", "surface", "level", "bottom"]) if tracer != "layered" else r.choice(["surface", "level"])
     if k == "surface":
         d[r.choice(["A", "B"])][2] = 0.0
     elif k == "bottom" and tracer != "layered":
-        lo = -3000.0 if d["ice"] == "exp" else float(make_ice(d).valid_range[0])
+        if d["ice"] == "exp":
+            d["ice"] = r.choice(["antarctic", "arasim", "greenland"])
+        lo = float(make_ice(d).valid_range[0])
         d["A"][2], d["B"][2] = lo, lo + r.uniform(50, 400)
     else:
         d["B"][2] = d["A"][2]
@@ -208,6 +214,26 @@ def outside_case(run, tracer):
     bottom = min(l["range"][0] for l in d["layers"]) if tracer == "layered" else -3000.0
     d[r.choice(["A", "B"])][2] = r.choice([r.uniform(0.01, 50), bottom - r.uniform(0.01, 50)])
     d["flavour"] = "outside"
+    return d
+
+
+def steep_case(run, tracer):
+    """the band between the near-vertical cut (rho < 0.003 |dz|) and the main generator (rho > 0.02 |dz| + 1 m), and
+    endpoints down to 50 m above the lower bound of the ice"""
+    d = rand_case(run, tracer)
+    r = run.rng
+    if r.random() < 0.5:
+        lo = float(make_ice(d).valid_range[0]) if d["ice"] != "exp" else -3000.0
+        top = -2750.0 if d["ice"] in ("greenland", "exp") else lo + 50      # below: saturated index (K17)
+        d["A"][2] = r.uniform(top, -900)
+        d["B"][2] = min(d["A"][2] + r.uniform(-400, 400), -5.0)
+        if d["B"][2] < top:
+            d["B"][2] = top + 10.0
+    else:
+        dz = abs(d["A"][2] - d["B"][2])
+        rho, az = r.uniform(0.003 * dz, 0.02 * dz + 1.0), r.uniform(0, 2 * math.pi)
+        d["B"] = [d["A"][0] + rho * math.cos(az), d["A"][1] + rho * math.sin(az), d["B"][2]]
+    d["flavour"] = "steep"
     return d
 
 
@@ -245,6 +271,8 @@ def rand_case(run, tracer, flavour=None):
         return onbound_case(run, tracer)
     if flavour == "outside":
         return outside_case(run, tracer)
+    if flavour == "steep":
+        return steep_case(run, tracer)
     r = run.rng
     d = {"tracer": tracer}
     if tracer in ("spec", "basic"):
@@ -268,7 +296,7 @@ def rand_case(run, tracer, flavour=None):
         d.update(ice="uniform", n=n, range=[lo, hi],
                  above=r.choice([1, 1.0, None, r.uniform(1.0, 1.4)]),
                  below=r.choice([None, r.uniform(1.0, n - 0.05), r.uniform(n + 0.05, 2.8)]),
-                 max_reflections=r.choice([0, 1, 2, 3, 3]))
+                 max_reflections=r.choice([0, 1, 2, 3, 3, 3, 4, 6]))
         span = hi - lo
         zA, zB = lo + span * r.uniform(0.02, 0.98), lo + span * r.uniform(0.02, 0.98)
         if r.random() < 0.1:
@@ -417,6 +445,7 @@ def vec_close(a, b, tol):
 
 
 NOISE_USED = [0]
+SKIPPED = {"near_threshold": 0}
 
 
 def same_solution(b, o, want_e, want_r, att_tol):
@@ -439,7 +468,7 @@ def same_solution(b, o, want_e, want_r, att_tol):
         return "tof %r vs %r" % (b["tof"], o["tof"])
     if not fw.close(b["len"], o["len"], 1e-8, 1e-8) or not fw.close(b["tof"], o["tof"], 1e-8, 0):
         NOISE_USED[0] += 1
-    dtol = 2e-7 + 10 * E / L
+    dtol = 2e-7 + 30 * E / L
     att_tol = [t + 0.01 * E for t in att_tol]
     for x, y, t in zip(b["att"], o["att"], att_tol):
         if x <= 1e-300 or y <= 1e-300:
@@ -511,14 +540,18 @@ def relation_failures(desc, base, moved, swapped, rot):
     if out:
         return out
     errs = [rec.get("error") for rec in (base, moved, swapped)]
-    if desc["tracer"] == "basic" and all(e and "is NaN; solver cannot continue" in e for e in errs):
+    k17 = lambda e: e and ("is NaN; solver cannot continue" in e or "cannot convert float infinity to integer" in e)
+    if desc["tracer"] in ("basic", "spec") and all(k17(e) for e in errs):
         # finding K17: brentq of the installed scipy rejects the NaN that _direct_r(max_angle) produces when
         # sin(max_angle)*n0/n(z1) rounds above 1; raised identically for all three geometries
         return [("known:K17", errs[0])]
     for name, rec in (("base", base), ("moved", moved), ("swapped", swapped)):
         if "error" in rec:
             out.append(("crash", "%s geometry: the tracer raises %s" % (name, rec["error"])))
-    if out or near_threshold(base) or near_threshold(moved) or near_threshold(swapped):
+    if out:
+        return out
+    if near_threshold(base) or near_threshold(moved) or near_threshold(swapped):
+        SKIPPED["near_threshold"] += 1      # rho within 1e-6 of direct_r_max / indirect_r_max: the count may flip with rounding
         return out
     grad = desc["tracer"] in ("spec", "basic")
     for name, rec in (("base", base), ("moved", moved), ("swapped", swapped)):
@@ -561,7 +594,8 @@ def budget(run):
             ("spec", "intform", run.scale(4, 40)),
             ("spec", "onbound", run.scale(8, 80)), ("basic", "onbound", run.scale(3, 30)),
             ("layered", "onbound", run.scale(3, 30)), ("uniform", "onbound", run.scale(12, 120)), ("layered", "outside", run.scale(3, 30)),
-            ("spec", "outside", run.scale(3, 30))]
+            ("spec", "outside", run.scale(3, 30)),
+            ("spec", "steep", run.scale(16, 160)), ("basic", "steep", run.scale(5, 50))]
 
 
 def correspondence(run):
@@ -844,6 +878,11 @@ def oracle_boundary_limit(run, d):
         return True        # the layered tracer drops / merges legs of zero length at a boundary: count is not continuous
     if near_threshold(on) or near_threshold(inside):
         return True
+    k17 = lambda rec: "error" in rec and ("is NaN; solver cannot continue" in rec["error"] or
+                                          "cannot convert float infinity" in rec["error"])
+    if k17(on) and k17(inside):
+        run.known_finding("K17")
+        return True
     ok = "error" not in on and "error" not in inside and on["n"] == inside["n"] and on["exists"] == inside["exists"] and \
         all(abs(x["len"] - y["len"]) <= 1e-4 * max(1.0, y["len"]) + 25 * max(x["noise"], y["noise"])
             for x, y in zip(on["sols"], inside["sols"]))
@@ -1046,6 +1085,7 @@ def known_probes(run):
         run.known_finding("K9")
     run.extra["K9_probe_path_lengths"] = lens
     run.extra["K9_noise_allowance_used_on"] = NOISE_USED[0]
+    run.extra["skipped_near_threshold"] = SKIPPED["near_threshold"]
     # K17: BasicRayTracer raises on a NaN bracket value
     try:
         import logging
